@@ -51,7 +51,7 @@ class C02(Check):
     quick_examples = 2500
     thorough_examples = 30000
     rule = (
-        "[drawn in addition since rounds 13-15: async dispatcher serving plain functions and its sequential batch mode; half of the generated batches consist of well-formed elements with distinct ids; every scripted exception type once per serving mode] "
+        "[round 16: clean batches of 10-33 elements] [drawn in addition since rounds 13-15: async dispatcher serving plain functions and its sequential batch mode; half of the generated batches consist of well-formed elements with distinct ids; every scripted exception type once per serving mode] "
         "cases: (a) every word of length 1..3 (quick) / 1..4 (thorough) over the 12 element kinds {call, notification} x {succeeds, "
         "unknown method, params do not bind, raises protocol error, raises exception, not a valid request object} x 2 dispatchers x an id "
         "typing (integers from 1, from 0, numeric strings, negatives, the mix '', '1', 1, 0, growing strings), enumerated; (b) Hypothesis-"
